@@ -653,6 +653,9 @@ theorem refine_step_full (env : Env) (w : World) (c : Cat) (r : Req) (h : RInv w
     | restart =>
       simp only [handle, specStep, if_true]
       exact restart_refines env r.fail w0 c hdom hd
+    | die id =>
+      simp only [handle, specStep, dieTask_ok, if_true]
+      exact die_refines env r.fail w0 c id hd
   · rw [hcut]
     simp only [step]
     exact WDom.handle (w := beginReq w none) h.dom Variant.fixed env r.fail r.op
